@@ -208,10 +208,28 @@ func (r *rewriter) rewriteFile(f *loader.File, printer FilePrinter) {
 var exampleOutputPrefix = regexp.MustCompile(`(?i)^[[:space:]]*(unordered )?output:`)
 
 // go test only runs an Example func that has an output comment, a free-floating comment of its body: keep it.
+// A //go:debug directive in front of the package clause sets a runtime default of the program: keep it.
 // With a comment list the printer ignores the doc comments of the nodes, so they have to be in the list as well then.
 // nil when the file has no such comment
 func docsAndExampleOutputs(f *ast.File, all, attached []*ast.CommentGroup) []*ast.CommentGroup {
 	var outputs []*ast.CommentGroup
+	needList := false
+	for _, cg := range all {
+		if cg.Pos() > f.Package {
+			break
+		}
+		var debug []*ast.Comment
+		for _, c := range cg.List {
+			if strings.HasPrefix(c.Text, "//go:debug ") {
+				debug = append(debug, c)
+			}
+		}
+		if debug != nil && cg != f.Doc /* the docs are added below */ {
+			// without the other lines of the group (the build constraint)
+			outputs = append(outputs, &ast.CommentGroup{List: debug})
+		}
+		needList = needList || debug != nil
+	}
 	for _, decl := range f.Decls {
 		fn, _ := decl.(*ast.FuncDecl)
 		if fn == nil || fn.Recv != nil || fn.Body == nil || !strings.HasPrefix(fn.Name.Name, "Example") {
@@ -228,7 +246,7 @@ func docsAndExampleOutputs(f *ast.File, all, attached []*ast.CommentGroup) []*as
 			outputs = append(outputs, last)
 		}
 	}
-	if outputs == nil {
+	if outputs == nil && !needList {
 		return nil
 	}
 	kept := append(outputs, attached...)
